@@ -76,7 +76,7 @@ def mutate_corpus(rng, text):
 
 def cases(ctx):
     rng = ctx.rng
-    n = ctx.split(1500 if ctx.tier == "quick" else 16 * 8000)
+    n = ctx.split(1000 if ctx.tier == "quick" else 16 * 8000)
     corpus = corpus_texts()
     for i in range(n):
         r = i % 10
@@ -167,6 +167,11 @@ def check(ctx, case):
             with open(p, "w", encoding="utf-8", newline="") as f:
                 f.write(text)
             paths[name] = p
+        from fs.memoryfs import MemoryFS
+
+        mem = MemoryFS()
+        for name in ("x.ssc", "y.SM", "z.txt"):
+            mem.writebytes("/" + name, text.encode("utf-8"))
         for strict in (True, False):
             exp_cache = {}
 
@@ -204,6 +209,18 @@ def check(ctx, case):
                 with open(p, encoding="utf-8") as f:
                     return cls(file=f, strict=strict)
 
+            # the same through an in-memory PyFilesystem (opens with newline='': no newline translation)
+            for name in ("x.ssc", "y.SM", "z.txt"):
+                low = name.lower()
+                fmt = "ssc" if low.endswith(".ssc") else ("sm" if low.endswith(".sm") else "auto")
+                mp = "/" + name
+
+                def via_mem_load(mp=mp):
+                    with mem.open(mp, "r", encoding="utf-8") as f:
+                        return simfile.load(f, strict=strict)
+
+                entries.append((f"load(memoryfs.open({name}))", via_mem_load, text, fmt))
+                entries.append((f"open({name}, filesystem=memoryfs)", lambda mp=mp: simfile.open(mp, strict=strict, filesystem=mem), text, fmt))
             entries.append(("SMSimfile(file=real file)", lambda: real_file(SMSimfile), ftext, "sm"))
             entries.append(("SSCSimfile(file=real file)", lambda: real_file(SSCSimfile), ftext, "ssc"))
 
